@@ -829,9 +829,23 @@ func (m *MonC06) OnEnd(w *World) []Violation {
 						break
 					}
 				}
-				for j := from + 1; j < len(log) && rq == nil; j++ {
+				for j := tr.T + 1; j < len(log) && rq == nil; j++ {
 					e := &log[j]
 					if e.Kind == "mq_req" && e.Subject == "access."+name && e.CID == c.CID && e.Query == q {
+						if e.T <= from {
+							// requested after the trigger but before the answer that found the
+							// re-check still deferred: it serves if it is still in flight then
+							// (the released re-check joins it)
+							ansT := len(log)
+							for k := range b.answers {
+								if a := &b.answers[k]; a.ReqT == e.T {
+									ansT = a.T
+								}
+							}
+							if ansT <= from {
+								continue
+							}
+						}
 						rq = e
 						break
 					}
